@@ -26,6 +26,7 @@ type sField struct {
 	Name string // storage key of the field = its name in the schema text, the model and the field checker
 	Ptr  bool
 	Sym  string // symbol name when it differs from the storage key (AddSymbolWithKey); "" = same
+	Typ  string // "" = string; i64 i32 bool f64 time (store_c03t.go): the field is persisted / read with the typed setters and the value strings of cases and facts are the bytes of its storage encoding (= the index key)
 }
 
 func (f sField) symName() string {
@@ -221,6 +222,10 @@ func (st *gStrategy) FillEntity(e *gEnt, bucket *boltz.TypedBucket) {
 		}
 	}
 	for _, f := range st.def.Fields {
+		if f.Typ != "" {
+			e.F[f.Name] = c03tFieldGet(bucket, f)
+			continue
+		}
 		e.F[f.Name] = bucket.GetString(f.Name)
 	}
 }
@@ -233,7 +238,9 @@ func (st *gStrategy) PersistEntity(e *gEnt, ctx *boltz.PersistContext) {
 	}
 	for _, f := range st.def.Fields {
 		v := e.F[f.Name]
-		if f.Ptr {
+		if f.Typ != "" {
+			c03tFieldSet(ctx, f, v)
+		} else if f.Ptr {
 			ctx.SetStringP(f.Name, v)
 		} else if v == nil {
 			ctx.SetString(f.Name, "")
@@ -402,7 +409,7 @@ func openHarnessDb(w *wiring, dir string) (*harnessDb, error) {
 				if t, ok := fkTarget[def.Name+"."+f.Name]; ok {
 					gs.symbols[f.Name] = gs.AddFkSymbolWithKey(f.symName(), f.Name, h.stores[t])
 				} else {
-					gs.symbols[f.Name] = gs.AddSymbolWithKey(f.symName(), ast.NodeTypeString, f.Name)
+					gs.symbols[f.Name] = gs.AddSymbolWithKey(f.symName(), c03tNodeType(f), f.Name)
 				}
 				if f.Sym != "" {
 					h.symToKey[f.Sym] = f.Name
@@ -828,6 +835,7 @@ func (h *harnessDb) facts() []string {
 			addChildSet(d.Target, d.Back)
 		}
 	}
+	typed := c03tTypedKeys(h.w) // nil unless the wiring declares typed fields
 	_ = h.db.View(func(tx *bbolt.Tx) error {
 		top := tx.Bucket([]byte("stores"))
 		if top == nil {
@@ -910,7 +918,7 @@ func (h *harnessDb) facts() []string {
 					fname := string(fk)
 					if fv != nil {
 						if !ignoredFields[fname] {
-							out = append(out, fmt.Sprintf("F:%s:%s:%s:%s", name, ih, fname, fieldValStr(fv)))
+							out = append(out, fmt.Sprintf("F:%s:%s:%s:%s", name, ih, fname, c03tFieldValStr(typed, name+"."+fname, fv)))
 						}
 						return nil
 					}
@@ -925,7 +933,7 @@ func (h *harnessDb) facts() []string {
 						out = append(out, fmt.Sprintf("C:%s:%s:%s", name, ih, fname))
 						_ = sub.ForEach(func(ck, cv []byte) error {
 							if cv != nil {
-								out = append(out, fmt.Sprintf("CF:%s:%s:%s:%s:%s", name, ih, fname, ck, fieldValStr(cv)))
+								out = append(out, fmt.Sprintf("CF:%s:%s:%s:%s:%s", name, ih, fname, ck, c03tFieldValStr(typed, fname+"."+string(ck), cv)))
 							} else if cs := sub.Bucket(ck); cs != nil && childSets[fname][string(ck)] {
 								_ = cs.ForEach(func(mk, mv []byte) error {
 									if len(mk) > 0 && boltz.FieldType(mk[0]) == boltz.TypeString {
